@@ -514,6 +514,14 @@ fn check_interior(acc: &mut Acc, idx: usize, s: &Subject) {
                         acc.viol(format!("interior_point returns the start point (boundary) of a single-segment member: {}", tname(&s.g)), idx, || w(format!("{:?}", q)));
                         return;
                     }
+                    // the same choice in disguise: a single segment written with a repeated coordinate has 'interior vertices' that are copies of its end points
+                    let end_of_repeated_segment_member = md == 1
+                        && s.fam == "LSdup"
+                        && top.iter().any(|p| matches!(p, AG::Lines(ls) if ls.iter().any(|l| l.len() == 2 && l.iter().any(|v| v.0 as f64 == q.x() && v.1 as f64 == q.y()))));
+                    if end_of_repeated_segment_member {
+                        acc.viol(format!("interior_point returns an end point (boundary) of a single segment written with a repeated coordinate: {}", tname(&s.g)), idx, || w(format!("{:?}", q)));
+                        return;
+                    }
                     let two = "";
                     acc.viol(format!("interior_point is on the boundary, not in the interior: {} {} {}", tname(&s.g), s.fam, two), idx, || w(format!("{:?}", q)));
                 }
